@@ -351,7 +351,17 @@ pub fn collection() -> Collection<TW> {
     Collection::new()
         .given(None, Regex::new(r"^(step|bg|rbg) (\S+) (\d+)$").unwrap(), hs::step_fn)
         .given(None, Regex::new(r"^ambig-\S+ .*$").unwrap(), hs::step_fn)
-        .given(None, Regex::new(r"^ambig-(step|bg|rbg) (\S+) (\d+)$").unwrap(), hs::step_fn2)
+        // the same pattern text at two locations: two definitions, not one
+        .given(
+            Some(cucumber::step::Location { path: "harness.rs", line: 1, column: 1 }),
+            Regex::new(r"^ambig-(step|bg|rbg) (\S+) (\d+)$").unwrap(),
+            hs::step_fn2,
+        )
+        .given(
+            Some(cucumber::step::Location { path: "harness.rs", line: 2, column: 1 }),
+            Regex::new(r"^ambig-(step|bg|rbg) (\S+) (\d+)$").unwrap(),
+            hs::step_fn2,
+        )
 }
 
 pub fn parser_error(tag: &str) -> parser::Error {
